@@ -7,7 +7,7 @@ from dataclasses import dataclass
 from typing import Dict, FrozenSet, List, Optional, Set, Tuple
 
 from .facts import always_exits, Fact, FactFlow, const_int, names_in
-from .resolve import UNK, Resolver, prim
+from .resolve import BUILTIN_METHOD_NAMES, UNK, Resolver, prim
 from .session import BUILTIN_EXC_PARENTS
 from .srcmodel import AnalysisError, FuncInfo, Model, norm, walk_no_nested
 
@@ -321,6 +321,45 @@ class MayRaise:
             if escaped or not sites or any(c.qualname == fi.qualname for c, _ in sites):
                 continue
             out[q] = (fi, sites)
+        # methods of private classes (and private methods of any class) whose name is unique among the package's classes and
+        # which are only ever mentioned as the callee of a direct `<receiver>.name(...)` call: those calls are all the call sites
+        defined: Dict[str, List[FuncInfo]] = {}
+        for q, fi in list(self.m.functions.items()):
+            if fi.cls is not None and not isinstance(fi.node, ast.Lambda) and "<locals>" not in q:
+                defined.setdefault(fi.name, []).append(fi)
+        for name, fis in defined.items():
+            if len(fis) != 1 or name.startswith("__") or name in BUILTIN_METHOD_NAMES:
+                continue
+            fi = fis[0]
+            cname = fi.cls.rsplit(".", 1)[-1]
+            if not (name.startswith("_") or cname.startswith("_")) or fi.decorators:
+                continue
+            sites = []
+            escaped = False
+            for cq, cfi in list(self.m.functions.items()):
+                if isinstance(cfi.node, ast.Lambda) or name not in self.m.modules[cfi.module].source:
+                    continue
+                calls = {id(n.func): n for n in ast.walk(cfi.node) if isinstance(n, ast.Call)}
+                for n in walk_no_nested(cfi.node):
+                    if isinstance(n, ast.Attribute) and n.attr == name:
+                        if id(n) in calls and isinstance(n.ctx, ast.Load):
+                            sites.append((cfi, calls[id(n)]))
+                        else:
+                            escaped = True
+                    elif isinstance(n, ast.Constant) and n.value == name:
+                        escaped = True          # the name as a string: getattr and friends
+            for mi in self.m.modules.values():
+                for n in mi.tree.body:
+                    stmts = [n] if not isinstance(n, ast.ClassDef) else [x for x in n.body if not isinstance(x, (ast.FunctionDef, ast.AsyncFunctionDef))]
+                    for st in stmts:
+                        if isinstance(st, (ast.FunctionDef, ast.AsyncFunctionDef)):
+                            continue
+                        if any(isinstance(x, ast.Attribute) and x.attr == name or isinstance(x, ast.Constant) and x.value == name
+                               or isinstance(x, ast.Name) and x.id == name for x in ast.walk(st)):
+                            escaped = True
+            if escaped or not sites or any(c.qualname == fi.qualname for c, _ in sites):
+                continue
+            out[fi.qualname] = (fi, sites)
         return out
 
     def settle_param_facts(self) -> None:
@@ -346,6 +385,10 @@ class MayRaise:
             defaults = info[q][1]
             if any(isinstance(x, ast.Starred) for x in call.args) or any(k.arg is None for k in call.keywords):
                 return None, False
+            if cands[q][0].cls is not None:
+                if i == 0:
+                    return None, False      # the receiver
+                i -= 1
             if i < len(call.args):
                 return call.args[i], False
             for k in call.keywords:
@@ -1439,7 +1482,10 @@ class MayRaise:
         call = site if isinstance(site, ast.Call) else None
         if prov == "-":
             # raised by a module-level helper on its data argument: which argument did the data come from?
-            new = self._arg_prov(callee, caller, call, 0)
+            if callee.cls and not callee.is_staticmethod and "classmethod" not in callee.decorators:
+                new = self._expr_prov(recv, caller) if recv is not None else "derived"      # raised by a method about its own object's data
+            else:
+                new = self._arg_prov(callee, caller, call, 0)
         elif prov == "self":
             new = self._expr_prov(recv, caller) if recv is not None else "derived"
         elif prov.startswith("param:"):
@@ -1490,6 +1536,8 @@ class MayRaise:
                             v = v.args[0]
                         elif isinstance(v, ast.Subscript) and isinstance(v.slice, ast.Slice):
                             v = v.value
+                        elif isinstance(v, ast.Call) and len(v.args) == 1 and not v.keywords and self._view_holder(v, fi):
+                            v = v.args[0]          # an object that is nothing but a holder of that one view
                         else:
                             break
                     roots.append(v)
@@ -1499,6 +1547,24 @@ class MayRaise:
         if len(txt) != 1:
             return None
         return [r for r in roots if norm(r) in txt][0]
+
+    def _view_holder(self, call: ast.Call, fi: FuncInfo) -> bool:
+        """`C(x)` with C a package class (not the reader) whose __init__ takes one argument and does nothing but store it in one
+        attribute: NotEnougData raised by C's methods "on self" is about x."""
+        if not isinstance(call.func, (ast.Name, ast.Attribute)):
+            return False
+        q = self.m.resolve_name(fi.module, norm(call.func))
+        ci = self.m.classes.get(q) if q else None
+        if ci is None or q == "sansldap.asn1.ASN1Reader" or len(ci.mro) > 1 and any(b in self.m.classes for b in ci.mro[1:]):
+            return False
+        init = self.m.functions.get(q + ".__init__")
+        if init is None or len(init.params()) != 2:
+            return False
+        body = [s_ for s_ in init.node.body if not (isinstance(s_, ast.Expr) and isinstance(s_.value, ast.Constant))]
+        p_ = init.params()[1]
+        return len(body) == 1 and isinstance(body[0], (ast.Assign, ast.AnnAssign)) and isinstance(body[0].value, ast.Name) and body[0].value.id == p_ \
+            and all(isinstance(t_, ast.Attribute) and isinstance(t_.value, ast.Name) and t_.value.id == "self"
+                    for t_ in (body[0].targets if isinstance(body[0], ast.Assign) else [body[0].target]))
 
     def _expr_prov(self, e: ast.expr, caller: FuncInfo, depth: int = 0) -> str:
         while isinstance(e, ast.Subscript) and isinstance(e.slice, ast.Slice):
